@@ -160,7 +160,8 @@ pub fn run_exit_contract(
         let (file, rep) = totals(&r, spec);
         let cmd = spec.cmdline();
         if kind == "other-mode-custom" {
-            let want = n.unwrap_or(0);
+            // (a view may also run into a fatal of its own - excess padding is one for the views: 0 or 1 without -E)
+            let want = n.unwrap_or(if fatal_reported(&r) && r.status == 1 { 1 } else { 0 });
             if r.status != want {
                 out.fail = fail(
                     "status-custom-check-other-mode",
@@ -282,12 +283,22 @@ pub fn run_exit_contract(
             if fatal0 {
                 continue;
             }
-            let listed: Vec<&str> = shown0
+            // (an end-of-run expectation message quotes the count the run arrived at, which a cap cuts short:
+            // such messages are compared by their code)
+            let norm = |m: &'_ oracle::ErrMsg| -> String {
+                match m.codes.first().map(|c| c.as_str()) {
+                    Some("E9001") | Some("E9002") => m.codes[0].clone(),
+                    _ => m.text.clone(),
+                }
+            };
+            let listed_owned: Vec<String> = shown0
                 .iter()
                 .filter(|m| m.codes.first().map_or(false, |c| codes.contains(&c.trim_start_matches('E'))))
-                .map(|m| m.text.as_str())
+                .map(norm)
                 .collect();
-            let got: Vec<&str> = shown.iter().map(|m| m.text.as_str()).collect();
+            let listed: Vec<&str> = listed_owned.iter().map(|s| s.as_str()).collect();
+            let got_owned: Vec<String> = shown.iter().map(norm).collect();
+            let got: Vec<&str> = got_owned.iter().map(|s| s.as_str()).collect();
             let single_batch = itsgen::walker::walk(&spec.input).pkts.len() <= 100;
             let ok = if single_batch {
                 got == listed.iter().take(cap).copied().collect::<Vec<_>>()
